@@ -28,6 +28,11 @@ def run(res, tier, lean, prop="C01", proof_breaks=(), build_log=""):
             ([], [("mkdir", "W/d"), ("create", "W/d/a"), ("rmtree", "W/d"), ("mkdir", "W/d"), ("create", "W/d/a"), ("unlink", "W/d/a"),
                   ("rmdir", "W/d"), ("rmdir", "W")]),
         ]
+    stale_init, stale_ops = pipe.FIXED[1]
+    extra = []
+    for a in (True, False):
+        for b in (True, False):
+            extra.append((stale_init, stale_ops, [a, False, b] + [False] * 8))
     n = 60 if thorough else 14
     for _ in range(n):
         init = pipe.gen_history(r, r.randint(2, 8)) if r.random() < 0.6 else []
@@ -36,11 +41,25 @@ def run(res, tier, lean, prop="C01", proof_breaks=(), build_log=""):
         t1 = pipe.tree_after(t0, init)
         hists.append((init, pipe.gen_history(r, r.randint(6, 16), tree=t1, allow_outside_ops=outside)))
     lines, impl, meta = [], [], []
+    for init, ops, sp in extra:
+        result = pipe.run_history(init, ops, recursive=True, full=False, probes=prop in ("C02", "C07"), split=sp)
+        if result["timeout"] and not result["thread_errors"]:
+            raise RuntimeError("drain timeout (machine stalled?)")
+        lines.append(pipe.request(result["init"], result["applied"], True, False))
+        impl.append(result["line"])
+        meta.append((True, False, False, result))
+        res.bump("histories")
+        res.bump("reads_scripted")
     for init, ops in hists:
         for recursive in (True, False):
             full = r.random() < 0.25
             as_bytes = r.random() < 0.25
-            result = pipe.run_history(init, ops, recursive=recursive, full=full, as_bytes=as_bytes, probes=prop in ("C02", "C07"))
+            # how the kernel buffer is split between reads: per operation, the whole batch at once or one record per read
+            mode = r.random()
+            split = None if mode < 0.3 else ([True] if mode < 0.5 else [r.random() < 0.5 for _ in range(max(1, len(ops)))])
+            res.bump("reads_default" if split is None else "reads_one_record" if split == [True] else "reads_mixed")
+            result = pipe.run_history(init, ops, recursive=recursive, full=full, as_bytes=as_bytes, probes=prop in ("C02", "C07"),
+                                      split=split)
             if result["timeout"] and not result["thread_errors"]:
                 raise RuntimeError("drain timeout (machine stalled?)")
             lines.append(pipe.request(result["init"], result["applied"], recursive, full))
@@ -120,3 +139,66 @@ def run(res, tier, lean, prop="C01", proof_breaks=(), build_log=""):
                           "every explored history was judged and none failed",
                           {"correspondence": "harness/pipe_check.py vs lean WD.Pipe", "request": line, "implementation": i,
                            "model": m, "mismatching_histories": len(bad)}, no_input=True, signature=f"{prop.lower()}-model-mismatch")
+
+
+    # ---- operations issued back to back, faster than the observer drains them (the reader is held off for the whole
+    #      burst): no model for this regime - the real runs are judged by the property's own observables
+    burst_runs = []
+    nb = 10 if thorough else 3
+    for i in range(nb):
+        init_b, bursts = pipe.gen_bursts(r, r.randint(3, 6))
+        recursive = True if prop != "C02" else (i % 3 != 2)
+        full = r.random() < 0.25
+        small = r.random() < 0.4
+        vanish = None
+        if prop == "C07" and i % 2 == 1:
+            vanish = r.randint(1, 6)        # a directory vanishes just before the k-th follow-up inotify_add_watch
+        out = pipe.run_bursts(init_b, bursts, recursive=recursive, full=full, small_reads=small, vanish_at=vanish)
+        if out["timeout"] and not out["thread_errors"]:
+            raise RuntimeError("drain timeout in a burst (machine stalled?)")
+        burst_runs.append((init_b, bursts, recursive, full, small, vanish, out))
+        res.count()
+        res.bump("burst_histories")
+        res.bump("bursts", len(bursts))
+        res.bump("burst_operations", sum(len(b) for b in out["applied"]))
+        if vanish is not None and out["vanished"]:
+            res.bump("transient_faults_injected")
+        if any(out["per_op"]):
+            res.nontrivial(("burst", i, tuple(map(tuple, bursts))))
+    for init_b, bursts, recursive, full, small, vanish, out in burst_runs:
+        v = None
+        if out["thread_errors"]:
+            v = f"a library thread died of an unhandled error: {out['thread_errors']}"
+        elif prop == "C01" and not out["vanished"]:
+            v = pipe.replay_judge(out, recursive)
+        elif prop == "C02":
+            for d, depth, seen in out["probes"]:
+                if recursive and not seen:
+                    v = f"a change inside the existing directory {d} was not reported under a recursive watch"
+                if not recursive and depth == 0 and not seen:
+                    v = "a change to a direct child of the root was not reported under a non-recursive watch"
+                if not recursive and depth > 0 and seen:
+                    v = f"a change inside {d} (deeper than the root's children) was reported under a non-recursive watch"
+        elif prop == "C03":
+            made = pipe.creations(out["applied"], out["initial_tree"], out["initial_outside"])
+            seen_created = {}
+            for evs in out["per_op"]:
+                for c, s_, d_, syn in evs:
+                    if c.endswith("CreatedEvent"):
+                        seen_created[s_] = seen_created.get(s_, 0) + 1
+                    for pth in (s_, d_):
+                        if pth and not (pth == "W" or pth.startswith("W/")):
+                            v = f"event path {pth} lies outside the watched scope"
+            for pth, n_ in seen_created.items():
+                if n_ > made.get(pth, 0):
+                    v = (f"{n_} created events for {pth} although the history created it {made.get(pth, 0)} time(s) "
+                         "(not justified by the operation history)")
+        elif prop == "C07":
+            if not out["root_gone"] and any(not seen for d, depth, seen in out["probes"] if recursive or depth == 0):
+                v = "later changes in the tree go unreported"
+        if v:
+            res.violation(f"native observer violates {prop} when operations are issued back to back: {v}",
+                          {"init": init_b, "bursts": bursts, "recursive": recursive, "full": full, "one_record_per_read": small,
+                           "vanish_before_add_watch_call": vanish, "vanished": out["vanished"], "delivered": out["per_op"],
+                           "tree": out["tree"], "probes": out["probes"]}, signature=f"{prop.lower()}-burst-judge")
+            break
